@@ -230,7 +230,10 @@ class ErrorTree(object):
         for error in errors:
             container = self
             for element in error.path:
-                container = container[element]
+                # Not ``container[element]``: the path of an error may name
+                # something that cannot be looked up in the instance (a
+                # missing required property, or a member of a property name).
+                container = container._contents[element]
             container.errors[error.validator] = error
 
             container._instance = error.instance
